@@ -10,7 +10,7 @@
     covered by the bounded sweep (a test) and by the correspondence search. *)
 From InvokeVerif Require Import Common.Tree Common.StrUtil Model.MergeModel Model.ConfigModel
      Spec.C03Spec Spec.C06Spec Proofs.C03_merge Proofs.C06_shapes Proofs.C06_track Proofs.C06_refine
-     Proofs.C06_witness Proofs.C06_union Proofs.C06_final.
+     Proofs.C06_witness Proofs.C06_union Proofs.C06_final Proofs.C06_held.
 
 (** Representation lemma behind everything: a leaf written at a path where the
     schema has a leaf, with nothing above it marked deleted, turns "journal J"
@@ -64,6 +64,30 @@ Theorem C06_union_is_merge : forall ls X,
   (forall a b, In a ls -> In b ls -> agree a b) ->
   merge_all ls [] = Ok X -> sim (union_of ls) (Node X).
 Proof. exact union_sim_merge. Qed.
+
+(** The same with HELD nested proxies in the history ([Hold h fl kp]: [h = c.<kp>];
+    [Via h o]: operation [o] through the held proxy, which reads and decides from
+    its own -- possibly stale -- snapshot of the cache generation it was fetched
+    from, and reports the edit to the root by key path).  Guard [sguard]
+    (decidable along the run): every operation satisfies [op_ok] (as above) and,
+    for an operation through a held proxy, the section it addresses is still
+    navigable in the LIVE view at that moment (so nothing above it is masked:
+    the F-C06b corner is outside).  Conclusion: the view is the journal of the
+    edits that went through (as the snapshots decided) replayed over the current
+    lower levels, and no internal error occurs.  What a stale snapshot can get
+    wrong is the DECISION (read a stale value, KeyError for a key that exists,
+    delete a key already gone: F-C06e, refuted above) -- never the consistency
+    of the root's bookkeeping.  This is the theorem the regression "no merge()
+    after recording a deletion" breaks at the model level: the cache would no
+    longer be the merge of the levels ([g_cache]). *)
+Theorem C06_refines_nested_dict_held_partial : forall S fs c0 ops,
+  is_node S = true -> good0 S c0 = true -> sguard S fs (sstart c0) ops = true ->
+  let c := s_cfg (fst (srun fs (sstart c0) ops)) in
+  exists X, merge_all (lower c) [] = Ok X /\ wf (Node X) = true /\
+            sim (Node (c_cache c)) (Node (replay (Node X) (sjournal fs (sstart c0) ops))) /\
+            Forall (fun ov => forall e, fst (fst ov) = OErr e -> e = EKey \/ e = EAttr \/ e = EType)
+                   (snd (srun fs (sstart c0) ops)).
+Proof. exact refines_nested_dict_held. Qed.
 
 (** Under the same guard no operation fails with anything but KeyError /
     AttributeError for a missing key (or the TypeError of walking through a leaf,
@@ -123,6 +147,23 @@ Proof. eexists; eexists; split; [exact (proj1 refuted_proxy_across_deletion) | r
 Theorem C06_model_meets_spec_bounded_3 :
   forallb (model_meets_spec [] sweep_init) (histories 3) = true.
 Proof. exact model_meets_spec_bounded_3. Qed.
+
+(** Non-vacuity of the held-proxy theorem: a proxy fetched, made stale by a
+    write and a reload through the root, then used for a deletion and a write. *)
+Example C06_example_held_history :
+  let S := Node [("a", Node [("x", Leaf VNone); ("y", Leaf VNone)]); ("k", Leaf VNone)] in
+  let d0 := Node [("a", Node [("x", Leaf (VInt 0)); ("y", Leaf (VInt 0))]); ("k", Leaf (VInt 1))] in
+  let ops := [Hold 0 Item ["a"]; Plain (SetV Item [] "k" (Leaf (VInt 2)));
+              Plain (LoadDefaults (Node [("a", Node [("x", Leaf (VInt 5)); ("y", Leaf (VInt 6))])]));
+              Via 0 (Del Item [] "x"); Via 0 (SetV Attr [] "y" (Leaf (VInt 9)))] in
+  match start [] (mkInit d0 (Node []) None None false) with
+  | Ok c0 =>
+      good0 S c0 = true /\ sguard S [] (sstart c0) ops = true /\
+      sjournal [] (sstart c0) ops = [JSet ["k"] (Leaf (VInt 2)); JDel ["a"; "x"]; JSet ["a"; "y"] (Leaf (VInt 9))] /\
+      c_cache (s_cfg (fst (srun [] (sstart c0) ops))) = [("a", Node [("y", Leaf (VInt 9))]); ("k", Leaf (VInt 2))]
+  | Err _ => False
+  end.
+Proof. vm_compute. repeat split; reflexivity. Qed.
 
 (** Non-vacuity: a concrete schema, start state and guarded history (write,
     deletion one level up, reload that re-supplies the deleted section, write
